@@ -61,7 +61,7 @@ type c04Case struct {
 	layout    int
 	methods   []int // confirmation Method per confirmation (index into confMethods)
 	firstFail int   // artifact over HTTP: 0 none; 1 the first back-channel call fails (transport error), 2 answers 503; any further call is answered with the FIRST request's ID
-	noDest    bool // Response carries no Destination (only meaningful when the Response itself is unsigned, layout 1)
+	noDest    bool  // Response carries no Destination (only meaningful when the Response itself is unsigned, layout 1)
 }
 
 func (k c04Case) String() string {
